@@ -1,8 +1,290 @@
-//! C01 runner (stub). Replace the body; keep the signature `pub fn run(args: &[String])`.
-#[allow(unused_imports)]
-use crate::common::{catch, each_line, opt_i64};
+//! C01/C02 runner: drives the real front end, lowering, emission and the real `incan build` path.
+//!
+//! `vharness run c01 emit`  — each stdin line is one Incan program (newlines written as `\n`).
+//!   Output: one JSON object per program:
+//!   `{"parse": "ok"|msg, "ast": {fn: sexp}, "check": [messages], "gen": "ok"|"typecheck"|"lowering: .."|
+//!     "emission: ..", "syn": bool, "fns": {name: [tokens of the body]}}`
+//!   The pipeline is the library one: lexer::lex -> parser::parse -> TypeChecker::check_program ->
+//!   IrCodegen::try_generate (which re-checks, lowers and emits) — exactly what `incan --check` /
+//!   `--emit-rust` / `build` run for a single file.
+//! `vharness run c01 build` — each stdin line is `<dir>\t<stem>`: chdir to <dir> and call the real
+//!   `incan::cli::commands::build_file("<stem>.incn", Some("out_<stem>"))` (checker, codegen, project
+//!   generation, `cargo build --release`).  Output `@@ <stem> ok` or `@@ <stem> fail <message>`.
+use crate::common::{catch, each_line};
+use incan::frontend::ast::{
+    BinaryOp, BindingKind, CallArg, CompoundOp, Declaration, Expr, Literal, Spanned, Statement, Type, UnaryOp,
+};
+use proc_macro2::{Delimiter, Spacing, TokenStream, TokenTree};
+use serde_json::{json, Map, Value};
+use std::str::FromStr;
 
-pub fn run(_args: &[String]) {
-    eprintln!("c01: runner not implemented");
-    std::process::exit(2);
+fn ty_s(t: &Type) -> String {
+    match t {
+        Type::Simple(n) => n.clone(),
+        Type::Unit => "None".to_string(),
+        other => format!("{:?}", other).replace(' ', ""),
+    }
+}
+
+fn expr_s(e: &Spanned<Expr>) -> String {
+    match &e.node {
+        Expr::Literal(Literal::Int(n)) => format!("(i {})", n),
+        Expr::Literal(Literal::Float(f)) => format!("(f {})", f.to_bits()),
+        Expr::Literal(Literal::Bool(b)) => format!("(b {})", b),
+        Expr::Ident(n) => format!("(v {})", n),
+        Expr::Paren(i) => format!("(p {})", expr_s(i)),
+        Expr::Unary(UnaryOp::Neg, i) => format!("(u neg {})", expr_s(i)),
+        Expr::Unary(UnaryOp::Not, i) => format!("(u not {})", expr_s(i)),
+        Expr::Binary(l, op, r) => {
+            let o: BinaryOp = *op;
+            format!("(o {} {} {})", format!("{}", o).replace(' ', "_"), expr_s(l), expr_s(r))
+        }
+        Expr::Call(f, args) => {
+            let mut s = format!("(c {}", expr_s(f));
+            for a in args {
+                match a {
+                    CallArg::Positional(x) => {
+                        s.push(' ');
+                        s.push_str(&expr_s(x));
+                    }
+                    CallArg::Named(n, x) => {
+                        s.push_str(&format!(" (named {} {})", n, expr_s(x)));
+                    }
+                }
+            }
+            s.push(')');
+            s
+        }
+        other => {
+            let d = format!("{:?}", other);
+            let head: String = d.chars().take_while(|c| c.is_alphanumeric()).collect();
+            format!("(? {})", head)
+        }
+    }
+}
+
+fn block_s(b: &[Spanned<Statement>]) -> String {
+    let parts: Vec<String> = b.iter().map(stmt_s).collect();
+    format!("({})", parts.join(" "))
+}
+
+fn stmt_s(s: &Spanned<Statement>) -> String {
+    match &s.node {
+        Statement::Assignment(a) => {
+            let k = match a.binding {
+                BindingKind::Inferred => "inferred",
+                BindingKind::Let => "let",
+                BindingKind::Mutable => "mut",
+                BindingKind::Reassign => "reassign",
+            };
+            let t = a.ty.as_ref().map(|t| ty_s(&t.node)).unwrap_or_else(|| "_".to_string());
+            format!("(= {} {} {} {})", k, a.name, t, expr_s(&a.value))
+        }
+        Statement::CompoundAssignment(c) => {
+            let o = match c.op {
+                CompoundOp::Add => "+",
+                CompoundOp::Sub => "-",
+                CompoundOp::Mul => "*",
+                CompoundOp::Div => "/",
+                CompoundOp::FloorDiv => "//",
+                CompoundOp::Mod => "%",
+            };
+            format!("(op= {} {} {})", o, c.name, expr_s(&c.value))
+        }
+        Statement::If(i) => {
+            let elifs: Vec<String> = i
+                .elif_branches
+                .iter()
+                .map(|(c, b)| format!("(elif {} {})", expr_s(c), block_s(b)))
+                .collect();
+            let el = i.else_body.as_ref().map(|b| format!("(else {})", block_s(b))).unwrap_or_else(|| "_".to_string());
+            format!("(if {} {} ({}) {})", expr_s(&i.condition), block_s(&i.then_body), elifs.join(" "), el)
+        }
+        Statement::While(w) => format!("(while {} {})", expr_s(&w.condition), block_s(&w.body)),
+        Statement::For(f) => format!("(for {} {} {})", f.var, expr_s(&f.iter), block_s(&f.body)),
+        Statement::Expr(e) => format!("(e {})", expr_s(e)),
+        Statement::Return(Some(e)) => format!("(ret {})", expr_s(e)),
+        Statement::Return(None) => "(ret)".to_string(),
+        Statement::Pass => "pass".to_string(),
+        Statement::Break => "break".to_string(),
+        Statement::Continue => "continue".to_string(),
+        other => {
+            let d = format!("{:?}", other);
+            let head: String = d.chars().take_while(|c| c.is_alphanumeric()).collect();
+            format!("(? {})", head)
+        }
+    }
+}
+
+/// Flatten a token stream to canonical token strings (joint punctuation merged, groups as
+/// explicit open/close tokens).
+fn flat(ts: TokenStream, out: &mut Vec<String>) {
+    let mut pending = String::new();
+    for t in ts {
+        match t {
+            TokenTree::Punct(p) => {
+                pending.push(p.as_char());
+                if p.spacing() == Spacing::Alone {
+                    out.push(std::mem::take(&mut pending));
+                }
+            }
+            other => {
+                if !pending.is_empty() {
+                    out.push(std::mem::take(&mut pending));
+                }
+                match other {
+                    TokenTree::Group(g) => {
+                        let (o, c) = match g.delimiter() {
+                            Delimiter::Parenthesis => ("(", ")"),
+                            Delimiter::Brace => ("{", "}"),
+                            Delimiter::Bracket => ("[", "]"),
+                            Delimiter::None => ("", ""),
+                        };
+                        if !o.is_empty() {
+                            out.push(o.to_string());
+                        }
+                        flat(g.stream(), out);
+                        if !c.is_empty() {
+                            out.push(c.to_string());
+                        }
+                    }
+                    TokenTree::Ident(i) => out.push(i.to_string()),
+                    TokenTree::Literal(l) => out.push(l.to_string()),
+                    TokenTree::Punct(_) => unreachable!(),
+                }
+            }
+        }
+    }
+    if !pending.is_empty() {
+        out.push(pending);
+    }
+}
+
+/// name -> flat tokens of the body, for every top-level `fn` of the generated file.
+fn fn_bodies(code: &str) -> Result<Map<String, Value>, String> {
+    let ts = TokenStream::from_str(code).map_err(|e| format!("tokenize: {}", e))?;
+    let toks: Vec<TokenTree> = ts.into_iter().collect();
+    let mut m = Map::new();
+    let mut i = 0;
+    while i < toks.len() {
+        if let TokenTree::Ident(id) = &toks[i] {
+            if id == "fn" {
+                if let Some(TokenTree::Ident(name)) = toks.get(i + 1) {
+                    let mut j = i + 2;
+                    let mut sig: Vec<String> = Vec::new();
+                    while j < toks.len() {
+                        if let TokenTree::Group(g) = &toks[j] {
+                            if g.delimiter() == Delimiter::Brace {
+                                let mut body = Vec::new();
+                                flat(g.stream(), &mut body);
+                                m.insert(name.to_string(), json!({"sig": sig, "body": body}));
+                                break;
+                            }
+                        }
+                        let mut one = Vec::new();
+                        flat(std::iter::once(toks[j].clone()).collect(), &mut one);
+                        sig.extend(one);
+                        j += 1;
+                    }
+                    i = j;
+                }
+            }
+        }
+        i += 1;
+    }
+    Ok(m)
+}
+
+pub fn emit_one(src: &str) -> Value {
+    let mut o = Map::new();
+    let toks = match incan::lexer::lex(src) {
+        Ok(t) => t,
+        Err(es) => {
+            o.insert("parse".into(), json!(format!("lex: {}", es.first().map(|e| e.message.clone()).unwrap_or_default())));
+            return Value::Object(o);
+        }
+    };
+    let ast = match incan::parser::parse(&toks) {
+        Ok(a) => a,
+        Err(es) => {
+            o.insert("parse".into(), json!(format!("parse: {}", es.first().map(|e| e.message.clone()).unwrap_or_default())));
+            return Value::Object(o);
+        }
+    };
+    o.insert("parse".into(), json!("ok"));
+    let mut asts = Map::new();
+    for d in &ast.declarations {
+        if let Declaration::Function(f) = &d.node {
+            let ps: Vec<String> = f.params.iter().map(|p| format!("{}:{}", p.node.name, ty_s(&p.node.ty.node))).collect();
+            asts.insert(
+                f.name.clone(),
+                json!(format!("(fn ({}) {} {})", ps.join(" "), ty_s(&f.return_type.node), block_s(&f.body))),
+            );
+        }
+    }
+    o.insert("ast".into(), Value::Object(asts));
+    let mut tc = incan::typechecker::TypeChecker::new();
+    let errs: Vec<String> = match tc.check_program(&ast) {
+        Ok(()) => vec![],
+        Err(es) => es.iter().map(|e| e.message.clone()).collect(),
+    };
+    o.insert("check".into(), json!(errs));
+    let gen = incan::IrCodegen::new().try_generate(&ast);
+    match gen {
+        Ok(code) => {
+            o.insert("gen".into(), json!("ok"));
+            o.insert("syn".into(), json!(syn::parse_file(&code).is_ok()));
+            match fn_bodies(&code) {
+                Ok(m) => {
+                    o.insert("fns".into(), Value::Object(m));
+                }
+                Err(e) => {
+                    o.insert("fns_error".into(), json!(e));
+                }
+            }
+        }
+        Err(e) => {
+            let s = match &e {
+                incan::backend::ir::codegen::GenerationError::TypeCheck(_) => "typecheck".to_string(),
+                incan::backend::ir::codegen::GenerationError::Lowering(l) => format!("lowering: {}", l),
+                incan::backend::ir::codegen::GenerationError::Emission(m) => format!("emission: {}", m),
+            };
+            o.insert("gen".into(), json!(s));
+        }
+    }
+    Value::Object(o)
+}
+
+pub fn run(args: &[String]) {
+    let mode = args.first().map(|s| s.as_str()).unwrap_or("emit");
+    match mode {
+        "emit" => each_line(|line| {
+            let src = line.replace("\\n", "\n");
+            match catch(|| emit_one(&src)) {
+                Ok(v) => v.to_string(),
+                Err(p) => json!({"panic": p}).to_string(),
+            }
+        }),
+        "build" => each_line(|line| {
+            let mut it = line.split('\t');
+            let dir = it.next().unwrap_or("").to_string();
+            let stem = it.next().unwrap_or("").to_string();
+            if std::env::set_current_dir(&dir).is_err() {
+                return format!("@@ {} fail cannot chdir to {}", stem, dir);
+            }
+            let file = format!("{}.incn", stem);
+            let out = format!("out_{}", stem);
+            let r = catch(|| incan::cli::commands::build_file(&file, Some(&out)));
+            match r {
+                Ok(Ok(code)) if code.0 == 0 => format!("@@ {} ok", stem),
+                Ok(Ok(code)) => format!("@@ {} fail exit code {}", stem, code.0),
+                Ok(Err(e)) => format!("@@ {} fail {}", stem, e.message),
+                Err(p) => format!("@@ {} fail panic: {}", stem, p),
+            }
+        }),
+        other => {
+            eprintln!("c01: unknown mode {}", other);
+            std::process::exit(2);
+        }
+    }
 }
